@@ -105,6 +105,10 @@ def resolve_amount(spec, sec, cost):
     unit = spec["price"] * spec["mult"]
     if kind == "units":  # multiple of the clean unit price
         return a[1] * unit
+    if kind == "decimal_units":  # the cost of n units as a person would write it down (decimal arithmetic), e.g. 100 x 12.93 x 10 = 12930.0
+        from decimal import Decimal
+
+        return float(Decimal(str(spec["price"])) * Decimal(str(spec["mult"])) * Decimal(a[1]))
     if kind == "close":  # exactly minus current value
         return -sec.value
     if kind == "cost":  # exactly the cost of n units, plus eps
@@ -215,6 +219,7 @@ def case_refuse(ctx, spec):
 PRICES = st.one_of(
     st.sampled_from([0.01, 0.37, 1.0, 2.5, 9.99, 10.0, 100.0, 101.3, 91.40246706608193, 1234.5, 99999.0]),
     st.floats(0.01, 1e5, allow_nan=False, allow_infinity=False),
+    st.integers(1, 99999).map(lambda c: c / 100.0),  # prices in cents: price x multiplier need not be the nearest float to the decimal product
 )
 
 
@@ -258,11 +263,13 @@ def alloc_spec(draw):
         if not integer and draw(st.booleans()):
             mag = mag + draw(st.floats(0.01, 0.99))
         pos0 = mag if pk == "long" else -mag
-    ak = draw(st.sampled_from(["units", "units", "units", "float", "close", "cost", "value_frac", "zero", "tiny", "huge"]))
+    ak = draw(st.sampled_from(["units", "units", "units", "float", "close", "cost", "value_frac", "zero", "tiny", "huge", "decimal_units", "decimal_units"]))
     sign = draw(st.sampled_from([1, -1]))
     if ak == "units":
         n = draw(st.one_of(st.integers(0, 50), st.floats(0.0, 3.0), st.floats(0.0, 1e4), st.sampled_from([0.5, 0.999, 1.0, 1.001, 1.5, 2.0, 10.0, 1e3])))
         amount = ["units", sign * n]
+    elif ak == "decimal_units":
+        amount = ["decimal_units", sign * draw(st.one_of(st.integers(1, 200), st.sampled_from([100, 1000, 10, 50, 250])))]
     elif ak == "float":
         amount = sign * draw(st.floats(1e-3, 1e7, allow_nan=False))
     elif ak == "close":
